@@ -627,6 +627,40 @@ func c11ResetWriteBound(kind string, m int, advanceMs int64, second bool) cwScen
 		fmt.Sprintf("unread:%d", m), fmt.Sprintf("advance-ms:%d", advanceMs), fmt.Sprintf("second:%v", second)}}
 }
 
+// as c11TrailerBlocked, with a MESSAGE of the stream (not its trailer) in the connection writer's hands while the
+// transport Write is held up: the caller, with responses unread, cancels (or its deadline expires), the reset is
+// processed by the server while the writer is parked in that Write, then the back-pressure ends. The Endpoint's blocked
+// Write observes the context it was GIVEN (it returns that context's error). The connection must survive: the other
+// RPCs in flight and a probe complete, Serve is still serving.
+func c11BodyBlocked(kind string, how string, unread, parked int, others int, probeDl bool) cwScenario {
+	pre, post, c := c11Others(others)
+	s := append([]Step{}, pre...)
+	open := Step{Op: "open", Kind: kind}
+	if how == "deadline" {
+		open.D = 3000
+	}
+	open.Ctx = ctxKindFor(open.D > 0, unread+parked+others)
+	s = append(s, open, Step{Op: "c2s"}, Step{Op: "send", C: c, B: 10}, Step{Op: "c2s"}, hop(c, HOp{Op: "recv"}))
+	for j := 0; j < unread; j++ {
+		s = append(s, hop(c, HOp{Op: "send", B: int64(20 + j)}), Step{Op: "s2c"})
+	}
+	s = append(s, Step{Op: "sblock", B: 1}, hop(c, HOp{Op: "send", B: 30}))
+	for j := 0; j < parked; j++ {
+		s = append(s, hop(c, HOp{Op: "send", B: int64(31 + j)}))
+	}
+	if how == "deadline" {
+		s = append(s, Step{Op: "tick", D: 3000})
+	} else {
+		s = append(s, Step{Op: "cancel", C: c})
+	}
+	s = append(s, Step{Op: "c2s"}, Step{Op: "sblock", B: 0}, Step{Op: "drain"}, hop(c, HOp{Op: "return", Ctx: true}), Step{Op: "drain"})
+	s = append(s, probeSteps(probeDl)...)
+	s = append(s, post...)
+	s = append(s, Step{Op: "recv", C: c})
+	return cwScenario{Mode: "e2e", Steps: s, Tags: []string{"c11", "abandon:caller", "kind:" + kind, "how:" + how, "fault:body-write-blocked",
+		fmt.Sprintf("unread:%d", unread), fmt.Sprintf("parked-sends:%d", parked), fmt.Sprintf("others:%d", others), fmt.Sprintf("probe-deadline:%v", probeDl)}}
+}
+
 // a peer that sends more than expected (client against a scripted peer)
 func c11OverSending(shape string, d int, probeDl bool) cwScenario {
 	var s []Step
@@ -796,6 +830,21 @@ func c11Scenarios(full bool) []cwScenario {
 						continue
 					}
 					out = append(out, c11TrailerBlocked(kind, how, ex, others, (ki+others+ex)%4 == 0))
+				}
+			}
+		}
+	}
+	// a message of the stream in the writer's hands, its transport Write held up, the caller cancels, the Write is released
+	for ki, kind := range []string{"Bidi", "SStream"} {
+		for _, how := range []string{"cancel", "deadline"} {
+			for others := 0; others <= 2; others++ {
+				for unread := 0; unread <= 2; unread++ {
+					for parked := 0; parked < 2; parked++ {
+						if !full && (ki+others+unread+parked)%2 == 1 {
+							continue
+						}
+						out = append(out, c11BodyBlocked(kind, how, unread, parked, others, (ki+others+unread)%3 == 0))
+					}
 				}
 			}
 		}
